@@ -261,7 +261,8 @@ class TextFileStorage(Storage[str]):
         """
 
         with self._storage_lock:
-            for i in range(len(self)):
+            # the identifiers go up to the size of the index, not up to the number of stored items (there may be gaps)
+            for i in range(len(self._index)):
                 try:
                     yield self[i]
                 except IndexError:
